@@ -296,6 +296,8 @@ func (r *runningRoutine) execute(
 		select {
 		case <-ctx.Done():
 			err = context.Canceled
+			// the previous instance must return before we report ours as exited
+			<-waitCh
 		case <-waitCh:
 		}
 	} else if ctx.Err() != nil {
